@@ -581,6 +581,8 @@ def run(ctx):
             for (b, a) in pairs:
                 forms = ('ctor', 'setter') if (thorough or n < 4) else (('ctor', 'setter')[k % 2],)
                 k += 1
+                if n == 4 and not thorough and k % 3 and not pl[a]:
+                    continue            # quick: a third of the 4-node pairs that share an empty container
                 for form in forms:
                     explore(col, 'shared-source', (pl, tuple(range(n)), ((b, a, form),)), 1,
                             True if thorough else 'min')
